@@ -105,6 +105,9 @@ type ManifestOpt struct {
 	// SubjectDesc, when set, is written as the subject descriptor instead of the subject node's own
 	// descriptor (same digest, but e.g. another media type or size, as a third-party producer may write it).
 	SubjectDesc *ocispec.Descriptor
+	// LayerURLs, when set, is written into the urls field of every layer descriptor (mirror locations
+	// of an ordinary, distributable layer).
+	LayerURLs []string
 }
 
 func (d *DAG) descs(ids []int) []ocispec.Descriptor {
@@ -126,6 +129,11 @@ func (d *DAG) Manifest(name string, config int, layers []int, o ManifestOpt) int
 	}
 	if m.Layers == nil {
 		m.Layers = []ocispec.Descriptor{}
+	}
+	for i := range m.Layers {
+		if o.LayerURLs != nil {
+			m.Layers[i].URLs = o.LayerURLs
+		}
 	}
 	kind, mt := KManifest, ocispec.MediaTypeImageManifest
 	var succ []int
@@ -377,6 +385,27 @@ func (d *DAG) ByName(name string) int {
 func no() ManifestOpt { return ManifestOpt{Subject: -1} }
 func subj(s int) ManifestOpt {
 	return ManifestOpt{Subject: s}
+}
+
+// Extra returns shapes that single harnesses add to the curated family (they are not part of it so
+// that the other harnesses' spaces stay as registered).
+func Extra(name string) *DAG {
+	d := &DAG{Name: name}
+	switch name {
+	case "urls-layer": // an ordinary layer whose descriptor lists mirror URLs: still copied
+		c := d.Blob("C", MTConfig, "{}")
+		l := d.Blob("L", MTLayer, "l")
+		f := d.Blob("F", MTForeign, "f")
+		d.Manifest("M", c, []int{l, f}, ManifestOpt{Subject: -1, LayerURLs: []string{"https://mirror.example/l"}})
+	case "blob-subject": // a referrer of a blob: the blob has two kinds of predecessors
+		c := d.Blob("C", MTConfig, "{}")
+		l := d.Blob("L", MTLayer, "l")
+		d.Manifest("M", c, []int{l}, no())
+		d.Manifest("R", c, nil, ManifestOpt{Subject: l, ArtifactType: "application/vnd.test.sig"})
+	default:
+		panic("unknown extra shape " + name)
+	}
+	return d
 }
 
 // Curated returns the collision family K: each shape forces one shortcut in the code.
